@@ -20,7 +20,7 @@ META = {
     ],
     "floors": {
         "quick": {"instructions_compared": 40000, "detector_shape_1": 100, "detector_shape_2": 100, "detector_shape_3": 100, "detector_shape_4": 100,
-                  "detector_shape_5": 100, "unsupported_omitted": 2000, "before_after_unroll": 3000, "library_before_after": 40, "repeat_blocks": 500},
+                  "detector_shape_5": 100, "unsupported_omitted": 2000, "before_after_unroll": 3000, "library_before_after": 40, "repeat_blocks": 500, "exports_after_field_edit": 500},
         "thorough": {"instructions_compared": 400000, "before_after_unroll": 30000, "library_before_after": 300},
     },
 }
@@ -180,6 +180,19 @@ def check_program(prog: Dict[str, Any], acc: Acc, flags=None):
         ops = circuit.operations
         if len(leaves) != len(ops) or any(a is not b for a, b in zip(leaves, ops)):
             acc.finding("export/listing-vs-structure", "operation listing is not the in-place expansion of the structure the exporter walks", case, None)
+        # an exported circuit whose (public, mutable) annotation fields are edited afterwards exports the edited listing
+        shifts = [o for o in ops if type(o).__name__ == "CoordinateShiftOperation"]
+        if shifts:
+            for o in shifts:
+                o.time_shift = int(o.time_shift) + 1
+                o.space_shift = int(o.space_shift) + 2
+            acc.count("exports_after_field_edit")
+            sc_e = export(circuit, acc, case, "after editing coordinate shifts")
+            if sc_e is None:
+                return
+            got = stim_stream(sc_e)
+            compare(acc, case, "after editing coordinate shifts", got, expected_stream(circuit.circuit_structure, None))
+            sc = sc_e
         # before / after unrolling: same multiset of instructions, same number of measurements
         n_meas = sc.num_measurements
         top_reps = circuit.circuit_structure.nr_of_repetitions
